@@ -907,3 +907,62 @@ func inCycle(b *ssa.BasicBlock) bool {
 	}
 	return false
 }
+
+// returnedFuncs: the function(s) a handler constructor returns as its first
+// result - a function literal (closure), a named function, or a method value
+// (resolved through the bound-method wrapper to the method itself).
+func returnedFuncs(outer *ssa.Function) []*ssa.Function {
+	var out []*ssa.Function
+	add := func(f *ssa.Function) {
+		for _, g := range out {
+			if g == f {
+				return
+			}
+		}
+		out = append(out, f)
+	}
+	var resolve func(v ssa.Value, depth int)
+	resolve = func(v ssa.Value, depth int) {
+		if depth > 6 || v == nil {
+			return
+		}
+		switch x := v.(type) {
+		case *ssa.MakeClosure:
+			fn, _ := x.Fn.(*ssa.Function)
+			if fn == nil {
+				return
+			}
+			if fn.Synthetic != "" && len(fn.Blocks) > 0 {
+				// bound method wrapper: the method it calls
+				for _, b := range fn.Blocks {
+					for _, ins := range b.Instrs {
+						if call, ok := ins.(*ssa.Call); ok {
+							if sc := call.Call.StaticCallee(); sc != nil {
+								add(sc)
+								return
+							}
+						}
+					}
+				}
+				return
+			}
+			add(fn)
+		case *ssa.Function:
+			add(x)
+		case *ssa.ChangeType:
+			resolve(x.X, depth+1)
+		case *ssa.MakeInterface:
+			resolve(x.X, depth+1)
+		case *ssa.Phi:
+			for _, e := range x.Edges {
+				resolve(e, depth+1)
+			}
+		}
+	}
+	for _, ri := range returnsOf(outer) {
+		if len(ri.Vals) > 0 {
+			resolve(ri.Vals[0], 0)
+		}
+	}
+	return out
+}
